@@ -37,6 +37,28 @@ theorem C07_vint_size (n : Nat) :
     have e : VInt.STOP = 128 := by decide
     omega
 
+/-- **The recorders' `u32` encoder** (`serialize_vint_u32`, the unrolled threshold ladder with the
+extracted `START_k` bounds): every `u32` is written on 1..5 bytes, each a `u8`, and
+`read_u32_vint` reads it back together with its length, whatever follows in the buffer.
+The proof goes through `serializeU32_eq_enc`, which needs every threshold to be exactly `128^k`. -/
+theorem C07_vint_u32_roundtrip (v : Nat) (hv : v < 2 ^ 32) (rest : List Nat) :
+    let bytes := VInt.serializeU32 Gen.Postings.VINT32_LADDER Gen.Postings.VINT32_LAST_BYTES
+      Gen.Postings.VINT32_RADIX Gen.Postings.VINT32_STOP_BIT v
+    VInt.readU32 Gen.Postings.VINT_STOP_BIT Gen.Postings.VINT32_MAX_LEN (bytes ++ rest) =
+      some (v, bytes.length) ∧
+    1 ≤ bytes.length ∧ bytes.length ≤ 5 ∧ (∀ b ∈ bytes, b < 256) := by
+  intro bytes
+  have hb : bytes = VInt.enc 128 v := VInt.serializeU32_eq_enc v hv
+  have hS : Gen.Postings.VINT_STOP_BIT = 128 := by decide
+  have hM : Gen.Postings.VINT32_MAX_LEN = 5 := by decide
+  have hlen : (VInt.enc 128 v).length ≤ 5 :=
+    VInt.enc_length_le 128 (by omega) 4 v (Nat.lt_of_lt_of_le hv (by decide))
+  rw [hb, hS, hM]
+  refine ⟨VInt.readU32_enc 128 (by omega) 5 v rest hlen, VInt.enc_length_pos 128 v, hlen, ?_⟩
+  intro b hb'
+  have := VInt.enc_bytes_lt 128 (by omega) v b hb'
+  omega
+
 /-- lists of VInts (the tail of a posting list, the tail of a position stream) -/
 theorem C07_vint_list_roundtrip (S : Nat) (hS : 2 ≤ S) (vs rest : List Nat) :
     VInt.decList S vs.length (VInt.encList S vs ++ rest) = some (vs, rest) ∧
@@ -190,6 +212,10 @@ example : (2 : Nat) ≤ VInt.STOP ∧ Gen.Postings.VINT_RADIX = Gen.Postings.VIN
     Gen.Postings.PVINT_STOP_BIT = Gen.Postings.VINT_STOP_BIT := by decide
 example : VInt.enc VInt.STOP 300 = [44, 130] ∧ VInt.dec VInt.STOP [44, 130, 7] = some (300, [7]) := by
   decide +kernel
+example : VInt.serializeU32 Gen.Postings.VINT32_LADDER Gen.Postings.VINT32_LAST_BYTES
+    Gen.Postings.VINT32_RADIX Gen.Postings.VINT32_STOP_BIT 2097152 = [0, 0, 0, 129] ∧
+    VInt.readU32 Gen.Postings.VINT_STOP_BIT Gen.Postings.VINT32_MAX_LEN [0, 0, 0, 129, 9] = some (2097152, 4) := by
+  decide
 example : ValidList [0, 3, 4, 1000, 2147483646] [1, 2, 1, 300, 7] :=
   ⟨by decide, by decide, by decide, by decide⟩
 example : 0 < cfg.B ∧ 2 ≤ cfg.S ∧ cfg.B = 8 ^ 2 * 2 ∧ cfg.T = 2 ^ 31 - 1 := by decide
